@@ -367,24 +367,36 @@ def absr(x): return z3.If(x >= 0, x, -x)
 def inv_call(ex, fn, k=0):
     """(result variable, argument terms) of the k-th distinct acos/asin/... call executed by the code"""
     return [(v, argt) for key, (v, argt) in ex.trig.items() if key[0] == fn][k]
+def prove_sides(S, unit, fn, res, name, hyps_for, pre_fn=None, solver='z3', timeout=None, mandatory=True):
+    """the executor's own obligations (domains of sqrt / division / acos, traps), each under the hypotheses hyps_for(kind, descr) chosen for it (the nonlinear solver drowns in irrelevant equations)"""
+    for k, (kind, cond, d) in enumerate(res.obligations):
+        on = '%s.%s[%s]#%d' % (name, kind, d[:60], k)
+        S.prove(on, z3.Not(cond), list(hyps_for(kind, d)) + res.axioms, timeout=timeout or S.cap(40, 120), solver=solver, kind=kind, functions=['w_' + fn], mandatory=mandatory,
+                replay=S._replayer(res, None, pre_fn, unit, fn, 'real', on, side_kind=kind))
 def job_orientation(t):
-    """chain: (here) orientation(N,Up) == Rodrigues(A, unit(Up x N)) with A = acos(N.Up), cos A = N.Up, sin A >= 0;  (lemmas.orientation.*) such a matrix is a proper rotation that takes Up to N"""
+    """chain: (here) orientation(N,Up) == Rodrigues(A, unit(Up x N)) with A = acos(N.Up), cos A = N.Up, sin A >= 0;  (lemmas.orientation.*, lemmas.rodrigues.*) such a matrix is a proper rotation taking Up to N"""
     def run(S):
         eps = eps_of(t)
         def near(i): return z3.And(*[absr(a - b) <= eps for a, b in zip(i[0], i[1])])      # equal(Normal, Up, epsilon): |a-b| <= eps per component (ext/vector_relational.hpp)
-        def setup(res, T):      # instance of lemmas.orientation.lagrange (|Up x N|^2 = |Up|^2|N|^2 - (N.Up)^2) for the unit inputs
-            N, Up = res.ins; return [norm2(cross(Up, N)) == 1 - dot(N, Up) * dot(N, Up)]
-        def spec(i, o, T):
+        def acos_parts(i, T):
             N, Up = i
             if is_num(N[0]):     # numeric replay
                 A = z3.RealVal(repr(math.acos(max(-1.0, min(1.0, float(z3val_to_fraction(z3.simplify(dot(N, Up)))))))))
-                cA, sA, arg = T.cos(A), T.sin(A), dot(N, Up)
-            else:
-                A, argt = inv_call(T.ex, 'acos'); cA, sA, arg = T.cos(A), T.sin(A), argt[0]
-            g = mat_goals('orientation==Rodrigues(A,unit(Up x N))', M4of(o[0]), embed(rodrigues(cA, sA, T.unit(cross(Up, N)))))
-            return g + [('acos.arg==N.Up', REq(arg, dot(N, Up))), ('cos(A)==N.Up', REq(cA, dot(N, Up))), ('sin(A)>=0', RGoal('ge', sA, ZERO))]
-        chk(S, U, 'orientation_' + t, spec, lambda i: [unit3(i[0]), unit3(i[1]), norm2(cross(i[1], i[0])) > 0, z3.Not(near(i))], setup=setup,
-            bounds='unit Normal, unit Up, not parallel, not within epsilon of each other', mutant=lambda i, o, T: [('cos(A)==-N.Up', REq(T.cos(inv_call(T.ex, 'acos')[0]), -dot(i[0], i[1])))])
+                return T.cos(A), T.sin(A), dot(N, Up)
+            A, argt = inv_call(T.ex, 'acos'); return T.cos(A), T.sin(A), argt[0]
+        def shape(i, o, T):
+            N, Up = i; cA, sA, arg = acos_parts(i, T)
+            return mat_goals('orientation==Rodrigues(A,unit(Up x N))', M4of(o[0]), embed(rodrigues(cA, sA, T.unit(cross(Up, N))))) + [('acos.arg==N.Up', REq(arg, dot(N, Up)))]
+        weak = lambda i: [norm2(cross(i[1], i[0])) > 0, z3.Not(near(i))]
+        lagr = lambda i: [norm2(cross(i[1], i[0])) == 1 - dot(i[0], i[1]) * dot(i[0], i[1])]      # instance of lemmas.orientation.lagrange for unit inputs
+        full = lambda i: [unit3(i[0]), unit3(i[1])] + weak(i) + lagr(i)
+        res = chk(S, U, 'orientation_' + t, shape, weak, side=False, solver='z3', bounds='A = acos(N.Up); all N, Up with Up x N != 0, not within epsilon of each other (component-wise)',
+                  mutant=lambda i, o, T: [('opposite-sense', REq(rv(o[0][1]), embed(rodrigues(acos_parts(i, T)[0], -acos_parts(i, T)[1], T.unit(cross(i[1], i[0]))))[1][0]))])
+        def trig(i, o, T):
+            cA, sA, arg = acos_parts(i, T); return [('cos(A)==N.Up', REq(cA, dot(i[0], i[1]))), ('sin(A)>=0', RGoal('ge', sA, ZERO))]
+        chk(S, U, 'orientation_' + t, trig, full, side=False, witness=False, solver='z3', name='c09.orientation_%s.angle' % t, bounds='unit Normal, unit Up, not parallel, not within epsilon')
+        if res is not None:
+            prove_sides(S, U, 'orientation_' + t, res, 'c09.orientation_' + t, lambda kind, d: full(res.ins) if 'acos' in d else weak(res.ins), pre_fn=full)
         chk(S, U, 'orientation_' + t, lambda i, o, T: mat_goals('orientation(N,Up)==I', M4of(o[0]), ident(4)), lambda i: [near(i)], name='c09.orientation_%s.near' % t, side=False,
             bounds='Normal within epsilon of Up (component-wise): identity')
     return run
